@@ -32,8 +32,9 @@ VARIABLES l,        \* next trace line
           replaced, \* calls replaced by a newer call of the same direction
           mustErr,  \* calls that sent a protocol-violating request
           excused,  \* calls cancelled by the driver or in mustErr
+          held,     \* calls whose stream is currently blocked by the driver (their loop cannot run)
           bad       \* set of <<property, what, call>>
-vars == <<l, bi, live, ann, lann, subm, acks, clears, dlv, replaced, mustErr, excused, bad>>
+vars == <<l, bi, live, ann, lann, subm, acks, clears, dlv, replaced, mustErr, excused, held, bad>>
 
 NoAnn == [t |-> "none", v |-> 0]
 Fresh ==
@@ -43,7 +44,7 @@ Fresh ==
   /\ subm = <<>>
   /\ acks = {} /\ clears = {}
   /\ dlv = [c \in Calls |-> {}]
-  /\ replaced = {} /\ mustErr = {} /\ excused = {}
+  /\ replaced = {} /\ mustErr = {} /\ excused = {} /\ held = {}
 
 Init == l = 1 /\ bi = -1 /\ bad = {} /\ Fresh
 
@@ -60,7 +61,7 @@ Reset ==
   /\ lann' = [c \in LCalls |-> {}]
   /\ subm' = <<>> /\ acks' = {} /\ clears' = {}
   /\ dlv' = [c \in Calls |-> {}]
-  /\ replaced' = {} /\ mustErr' = {} /\ excused' = {}
+  /\ replaced' = {} /\ mustErr' = {} /\ excused' = {} /\ held' = {}
   /\ UNCHANGED bad
 
 Reg ==
@@ -75,20 +76,26 @@ Reg ==
           /\ excused' = excused \cup {c}
           /\ UNCHANGED replaced
   /\ l' = l + 1
-  /\ UNCHANGED <<bi, ann, lann, subm, acks, clears, dlv, bad>>
+  /\ UNCHANGED <<bi, ann, lann, subm, acks, clears, dlv, held, bad>>
 
 LReg ==
   /\ Is("lreg")
   /\ live' = [live EXCEPT ![Ev.c] = "run"]
   /\ replaced' = replaced \cup {x \in LCalls : x # Ev.c /\ live[x] = "run"}
   /\ l' = l + 1
-  /\ UNCHANGED <<bi, ann, lann, subm, acks, clears, dlv, mustErr, excused, bad>>
+  /\ UNCHANGED <<bi, ann, lann, subm, acks, clears, dlv, mustErr, excused, held, bad>>
 
 Cancel ==
   /\ (Is("cancel") \/ Is("lcancel"))
   /\ excused' = excused \cup {Ev.c}
   /\ l' = l + 1
-  /\ UNCHANGED <<bi, live, ann, lann, subm, acks, clears, dlv, replaced, mustErr, bad>>
+  /\ UNCHANGED <<bi, live, ann, lann, subm, acks, clears, dlv, replaced, mustErr, held, bad>>
+
+HoldRelease ==
+  /\ (Is("hold") \/ Is("release"))
+  /\ held' = IF Ev.e = "hold" THEN held \cup {Ev.c} ELSE held \ {Ev.c}
+  /\ l' = l + 1
+  /\ UNCHANGED <<bi, live, ann, lann, subm, acks, clears, dlv, replaced, mustErr, excused, bad>>
 
 Send ==
   /\ Is("send")
@@ -97,17 +104,19 @@ Send ==
      THEN mustErr' = mustErr \cup {Ev.c} /\ excused' = excused \cup {Ev.c}
      ELSE UNCHANGED <<mustErr, excused>>
   /\ l' = l + 1
-  /\ UNCHANGED <<bi, live, ann, lann, acks, clears, dlv, replaced, bad>>
+  /\ UNCHANGED <<bi, live, ann, lann, acks, clears, dlv, replaced, held, bad>>
 
 AckClear ==
   /\ (Is("ack") \/ Is("clear"))
-  /\ IF Ev.e = "ack" THEN acks' = acks \cup {<<Ev.c, Ev.n>>} /\ UNCHANGED clears
-                     ELSE clears' = clears \cup {<<Ev.c, Ev.n>>} /\ UNCHANGED acks
+  \* a request stamped with an epoch other than the server's must have no effect, so only current ones count
+  /\ IF Ev.rel # "cur" THEN UNCHANGED <<acks, clears>>
+     ELSE IF Ev.e = "ack" THEN acks' = acks \cup {<<Ev.c, Ev.n>>} /\ UNCHANGED clears
+                         ELSE clears' = clears \cup {<<Ev.c, Ev.n>>} /\ UNCHANGED acks
   /\ IF Ev.rel = "future"
      THEN mustErr' = mustErr \cup {Ev.c} /\ excused' = excused \cup {Ev.c}
      ELSE UNCHANGED <<mustErr, excused>>
   /\ l' = l + 1
-  /\ UNCHANGED <<bi, live, ann, lann, subm, dlv, replaced, bad>>
+  /\ UNCHANGED <<bi, live, ann, lann, subm, dlv, replaced, held, bad>>
 
 \* ---- walking the outputs of one session call: state = [ann, dlv, bad]
 StepOut(c, s, it, dlvAll) ==
@@ -146,25 +155,26 @@ Q ==
          lw == [x \in LCalls |-> LWalk(lann[x], outs[x], 1)]
          live2 == [c \in Calls \cup LCalls |-> IF rets[c] # "" THEN "done" ELSE live[c]]
          running(c) == live2[c] = "run"
+         free(c) == c \notin held   \* a held call could not run its loop: nothing is demanded of it at this checkpoint
          sess(c) == snap.sess[KeyName(c)]
          partnerPresent(c) == IF IsA(c) THEN sess(c).b.p ELSE sess(c).a.p
          bWalk == UNION {w[c].bad : c \in Calls}
-         bRepl == {<<"C25", "a replaced call is still running at quiescence", c>> : c \in {x \in replaced : rets[x] = ""}}
+         bRepl == {<<"C25", "a replaced call is still running at quiescence", c>> : c \in {x \in replaced : rets[x] = "" /\ free(x)}}
                   \cup {<<"C25", "a replaced call did not end with the replaced error", c>> : c \in {x \in replaced \ excused : rets[x] \notin {"", "usurped"}}}
                   \cup {<<"C25", "a call ended with the replaced error without having been replaced", c>> :
                            c \in {x \in (Calls \cup LCalls) \ replaced : rets[x] = "usurped"}}
          bErr == {<<"C20", "a protocol-violating request (bad signature, future epoch, bad init) did not end the call with an error", c>> :
-                     c \in {x \in mustErr : rets[x] = "" \/ (x \notin replaced /\ rets[x] # "err")}}
+                     c \in {x \in mustErr : free(x) /\ (rets[x] = "" \/ (x \notin replaced /\ rets[x] # "err"))}}
          bAnn == {<<"C22", "attached call was not told the current epoch at quiescence", c>> :
-                     c \in {x \in Calls : running(x) /\ partnerPresent(x) /\ w[x].ann # [t |-> "opened", v |-> sess(x).seq]}}
+                     c \in {x \in Calls : running(x) /\ free(x) /\ partnerPresent(x) /\ w[x].ann # [t |-> "opened", v |-> sess(x).seq]}}
                  \cup {<<"C22", "attached call still believes the session is open after the partner left", c>> :
-                     c \in {x \in Calls : running(x) /\ ~partnerPresent(x) /\ w[x].ann.t = "opened"}}
+                     c \in {x \in Calls : running(x) /\ free(x) /\ ~partnerPresent(x) /\ w[x].ann.t = "opened"}}
          bOne == {<<"C25", "two active calls for the same peer pair at quiescence", c>> :
-                     c \in {x \in Calls : running(x) /\ \E y \in Calls : y # x /\ SameDir(x, y) /\ running(y)}}
+                     c \in {x \in Calls : running(x) /\ free(x) /\ \E y \in Calls : y # x /\ SameDir(x, y) /\ running(y) /\ free(y)}}
                  \cup {<<"C25", "two active listen calls at quiescence", c>> :
-                     c \in {x \in LCalls : running(x) /\ \E y \in LCalls : y # x /\ running(y)}}
+                     c \in {x \in LCalls : running(x) /\ free(x) /\ \E y \in LCalls : y # x /\ running(y) /\ free(y)}}
          bWant == {<<"C24", "listener's announced set differs from the peers holding an open session request", x>> :
-                     x \in {y \in LCalls : running(y) /\ lw[y] # {Src(c) : c \in {z \in Calls : running(z) /\ Dst(z) = LPeer(y)}}}}
+                     x \in {y \in LCalls : running(y) /\ free(y) /\ lw[y] # {Src(c) : c \in {z \in Calls : running(z) /\ Dst(z) = LPeer(y)}}}}
          bLeft == IF (\A c \in Calls \cup LCalls : ~running(c)) /\ (snap.nsess # 0 \/ snap.npeers # 0)
                   THEN {<<"C25", "relay keeps state after all calls ended", "-">>} ELSE {}
      IN /\ ann' = [c \in Calls |-> w[c].ann]
@@ -173,9 +183,9 @@ Q ==
         /\ live' = live2
         /\ bad' = bad \cup bWalk \cup bRepl \cup bErr \cup bAnn \cup bOne \cup bWant \cup bLeft
   /\ l' = l + 1
-  /\ UNCHANGED <<bi, subm, acks, clears, replaced, mustErr, excused>>
+  /\ UNCHANGED <<bi, subm, acks, clears, replaced, mustErr, excused, held>>
 
-Next == Reset \/ Reg \/ LReg \/ Cancel \/ Send \/ AckClear \/ Q
+Next == Reset \/ Reg \/ LReg \/ Cancel \/ HoldRelease \/ Send \/ AckClear \/ Q
 Spec == Init /\ [][Next]_vars
 
 \* verdict for the property under check
